@@ -101,35 +101,48 @@ class BatchProcessTarget(Target):
     exe = None
     env = None
 
-    def ask(self, lines, timeout=900):
-        answers = []
-        start = 0
-        n = len(lines)
-        crashes = 0
+    max_crashes_per_type = 4
+
+    def _run_group(self, lines, timeout):
+        """Lines of one type through one process (restarted after a crash; gives up after a few crashes)."""
+        answers, start, n, crashes = [], 0, len(lines), 0
         while start < n:
             data = ("\n".join(lines[start:]) + "\n").encode()
             try:
                 p = subprocess.run([str(self.exe)], input=data, capture_output=True, timeout=timeout, env=self.env)
-                out = p.stdout.decode(errors="replace").split("\n")
-                rc = p.returncode
-                err = p.stderr.decode(errors="replace")[-600:]
+                out, rc, err = p.stdout.decode(errors="replace").split("\n"), p.returncode, p.stderr.decode(errors="replace")[-1500:]
             except subprocess.TimeoutExpired as ex:
-                out = (ex.stdout or b"").decode(errors="replace").split("\n")
-                rc, err = "timeout", ""
-            if out and out[-1] == "":
-                out.pop()
-            elif out:
-                out.pop()           # incomplete last line of a crashed process
+                out, rc, err = (ex.stdout or b"").decode(errors="replace").split("\n"), "timeout", ""
+            out.pop()               # "" after the final newline, or the incomplete last line of a crashed process
             out = out[: n - start]
             answers += out
             start += len(out)
             if start < n:
-                answers.append(f"crash:{rc}:{err.strip().splitlines()[-1][:200] if err.strip() else ''}")
+                why = ""
+                for l in err.strip().splitlines():
+                    if "ERROR" in l or "runtime error" in l or "Assertion" in l:
+                        why = l.strip()[:200]
+                        break
+                answers.append(f"crash:{rc}:{why}")
                 start += 1
                 crashes += 1
-                if crashes > 50:
-                    answers += ["crash:too-many"] * (n - start)
+                if crashes >= self.max_crashes_per_type:
+                    answers += ["crash:skipped-after-repeated-crashes"] * (n - start)
                     break
+        return answers
+
+    def ask(self, lines, timeout=900):
+        """Requests are grouped by type index and the groups run in parallel processes."""
+        groups = {}
+        for i, l in enumerate(lines):
+            parts = l.split(" ", 2)
+            groups.setdefault(parts[1] if len(parts) > 1 else "", []).append(i)
+        answers = [None] * len(lines)
+        with concurrent.futures.ThreadPoolExecutor(max_workers=NCPU) as ex:
+            futs = {ex.submit(self._run_group, [lines[i] for i in idxs], timeout): idxs for idxs in groups.values()}
+            for f, idxs in futs.items():
+                for i, a in zip(idxs, f.result()):
+                    answers[i] = a
         return answers
 
 
@@ -264,3 +277,584 @@ def py_type_desc(gt):
     if gt.role != "message":
         d["parent"] = d["cls"].rsplit(".", 1)[0]
     return d
+
+
+# ------------------------------------------------------------------------------------------------------------
+# C shim (from the PyDSDL model)
+# ------------------------------------------------------------------------------------------------------------
+
+def _inner(t):
+    return t.inner_type if isinstance(t, pydsdl.DelimitedType) else t
+
+
+def c_name(model):
+    m = _inner(model)
+    return m.full_name.replace(".", "_") + f"_{m.version.major}_{m.version.minor}"
+
+
+def _header_path(model, ext):
+    m = _inner(model)
+    comps = m.full_name.split(".")
+    if m.has_parent_service:
+        comps = comps[:-1]
+    return "/".join(comps[:-1] + [f"{comps[-1]}_{m.version.major}_{m.version.minor}{ext}"])
+
+
+def _c_storage(t):
+    if isinstance(t, pydsdl.BooleanType):
+        return "bool"
+    if isinstance(t, pydsdl.FloatType):
+        return "double" if t.bit_length == 64 else "float"
+    sb = dsdlgen.storage_bits(t.bit_length)
+    return ("uint" if isinstance(t, pydsdl.UnsignedIntegerType) else "int") + f"{sb}_t"
+
+
+def _composites_in_order(ns):
+    """Every composite reachable from the namespace's types, nested ones first, deduplicated by C name."""
+    order, seen = [], set()
+
+    def visit(t):
+        t = _inner(t)
+        if isinstance(t, pydsdl.ArrayType):
+            visit(t.element_type)
+            return
+        if not isinstance(t, pydsdl.CompositeType):
+            return
+        n = c_name(t)
+        if n in seen:
+            return
+        seen.add(n)
+        for f in t.fields:
+            visit(f.data_type)
+        order.append(t)
+    for gt in ns.types:
+        visit(gt.model)
+    return order
+
+
+class _CGen:
+    """Emits parse_/dump_ functions for C structs."""
+
+    def __init__(self):
+        self.uid = 0
+
+    def fresh(self, stem):
+        self.uid += 1
+        return f"{stem}{self.uid}"
+
+    # ---- parse ----
+    def parse_prim(self, t, lv):
+        if isinstance(t, pydsdl.BooleanType):
+            return [f"{lv} = p_u64(p) != 0;"]
+        if isinstance(t, pydsdl.UnsignedIntegerType):
+            return [f"{lv} = ({_c_storage(t)}) p_u64(p);"]
+        if isinstance(t, pydsdl.SignedIntegerType):
+            return [f"{lv} = ({_c_storage(t)}) p_i64(p);"]
+        if isinstance(t, pydsdl.FloatType):
+            return [f"{lv} = ({_c_storage(t)}) p_f64(p);"]
+        raise ValueError(t)
+
+    def parse_value(self, t, lv):
+        """Statements parsing one value of type t into the C lvalue lv (not for bool arrays' elements)."""
+        if isinstance(t, pydsdl.PrimitiveType):
+            return self.parse_prim(t, lv)
+        if isinstance(t, pydsdl.CompositeType):
+            return [f"parse_{c_name(t)}(p, &{lv});"]
+        raise ValueError(t)
+
+    def parse_field(self, f, obj):
+        t = f.data_type
+        if isinstance(t, pydsdl.VoidType):
+            return ["p_void(p);"]
+        name = f.name
+        if isinstance(t, pydsdl.FixedLengthArrayType):
+            i = self.fresh("i")
+            out = ["p_expect(p, '[');", f"for (size_t {i} = 0; {i} < {t.capacity}U; ++{i}) {{"]
+            if isinstance(t.element_type, pydsdl.BooleanType):
+                arr = f"{obj}{name}_bitpacked_"
+                out += [f"    if (p_u64(p) != 0) {{ {arr}[{i} / 8U] |= (uint8_t) (1U << ({i} % 8U)); }} else {{ {arr}[{i} / 8U] &= (uint8_t) ~(1U << ({i} % 8U)); }}"]
+            else:
+                out += ["    " + s for s in self.parse_value(t.element_type, f"{obj}{name}[{i}]")]
+            out += ["}", "p_expect(p, ']');"]
+            return out
+        if isinstance(t, pydsdl.VariableLengthArrayType):
+            n = self.fresh("n")
+            out = ["p_expect(p, '[');", f"size_t {n} = 0;", f"while (p_peek(p) != ']' && !p->err) {{"]
+            if isinstance(t.element_type, pydsdl.BooleanType):
+                arr = f"{obj}{name}.bitpacked"
+                out += [f"    const bool b = p_u64(p) != 0;",
+                        f"    if ({n} < {t.capacity}U) {{ if (b) {{ {arr}[{n} / 8U] |= (uint8_t) (1U << ({n} % 8U)); }} else {{ {arr}[{n} / 8U] &= (uint8_t) ~(1U << ({n} % 8U)); }} }}"]
+            else:
+                et = t.element_type
+                ctype = c_name(et) if isinstance(et, pydsdl.CompositeType) else _c_storage(et)
+                d = self.fresh("dummy")
+                out += [f"    if ({n} < {t.capacity}U) {{"]
+                out += ["        " + s for s in self.parse_value(et, f"{obj}{name}.elements[{n}]")]
+                out += ["    } else {", f"        static {ctype} {d};"]
+                out += ["        " + s for s in self.parse_value(et, d)]
+                out += ["    }"]
+            out += [f"    {n}++;", "}", "p_expect(p, ']');", f"{obj}{name}.count = {n};"]
+            return out
+        return self.parse_value(t, f"{obj}{name}")
+
+    # ---- dump ----
+    def dump_prim(self, t, rv):
+        if isinstance(t, pydsdl.BooleanType):
+            return [f"o_u64(({rv}) ? 1U : 0U);"]
+        if isinstance(t, pydsdl.UnsignedIntegerType):
+            return [f"o_u64((uint64_t) ({rv}));"]
+        if isinstance(t, pydsdl.SignedIntegerType):
+            return [f"o_i64((int64_t) ({rv}));"]
+        if isinstance(t, pydsdl.FloatType):
+            return [f"o_f64((double) ({rv}));"]
+        raise ValueError(t)
+
+    def dump_value(self, t, rv):
+        if isinstance(t, pydsdl.PrimitiveType):
+            return self.dump_prim(t, rv)
+        if isinstance(t, pydsdl.CompositeType):
+            return [f"dump_{c_name(t)}(&{rv});"]
+        raise ValueError(t)
+
+    def dump_field(self, f, obj):
+        t = f.data_type
+        if isinstance(t, pydsdl.VoidType):
+            return ["o_void();"]
+        name = f.name
+        if isinstance(t, pydsdl.ArrayType):
+            i = self.fresh("i")
+            var = isinstance(t, pydsdl.VariableLengthArrayType)
+            count = f"{obj}{name}.count" if var else f"{t.capacity}U"
+            out = ["o_open('[');", f"for (size_t {i} = 0; {i} < {count}; ++{i}) {{"]
+            if isinstance(t.element_type, pydsdl.BooleanType):
+                arr = f"{obj}{name}.bitpacked" if var else f"{obj}{name}_bitpacked_"
+                out += [f"    o_u64(({arr}[{i} / 8U] >> ({i} % 8U)) & 1U);"]
+            else:
+                el = f"{obj}{name}.elements[{i}]" if var else f"{obj}{name}[{i}]"
+                out += ["    " + s for s in self.dump_value(t.element_type, el)]
+            out += ["}", "o_close(']');"]
+            return out
+        return self.dump_value(t, f"{obj}{name}")
+
+    def composite(self, m):
+        n = c_name(m)
+        ps = [f"static void parse_{n}(P* p, {n}* o)", "{", "    (void) o;"]
+        ds = [f"static void dump_{n}(const {n}* o)", "{", "    (void) o;"]
+        if isinstance(m, pydsdl.UnionType):
+            ps += ["    p_expect(p, '<');", "    const uint64_t k = p_u64(p);", "    o->_tag_ = (uint8_t) k;", "    switch (k) {"]
+            ds += ["    o_open('<');", "    o_u64((uint64_t) o->_tag_);", "    switch (o->_tag_) {"]
+            for k, f in enumerate(m.fields):
+                ps += [f"    case {k}: {{"] + ["        " + s for s in self.parse_field(f, "o->")] + ["        break; }"]
+                ds += [f"    case {k}: {{"] + ["        " + s for s in self.dump_field(f, "o->")] + ["        break; }"]
+            ps += ["    default: p_skip(p); break;", "    }", "    p_expect(p, '>');"]
+            ds += ["    default: o_void(); break;", "    }", "    o_close('>');"]
+        else:
+            ps += ["    p_expect(p, '{');"]
+            ds += ["    o_open('{');"]
+            for f in m.fields:
+                ps += ["    " + s for s in self.parse_field(f, "o->")]
+                ds += ["    " + s for s in self.dump_field(f, "o->")]
+            ps += ["    p_expect(p, '}');"]
+            ds += ["    o_close('}');"]
+        ps += ["}"]
+        ds += ["}"]
+        return ps + [""] + ds + [""]
+
+
+_C_HANDLER = r'''
+#define DEFINE_HANDLER(IDX, T)                                                                                        \
+    static int handle_##IDX(const char* op, const char* rest)                                                         \
+    {                                                                                                                 \
+        const int is_ser = !strcmp(op, "ser"), is_serbuf = !strcmp(op, "serbuf"), is_rt = !strcmp(op, "rt");            \
+        if (is_ser || is_serbuf || is_rt)                                                                             \
+        {                                                                                                             \
+            T* obj = (T*) calloc(1, sizeof(T));                                                                       \
+            P p = {rest, 0};                                                                                          \
+            parse_##T(&p, obj);                                                                                       \
+            size_t cap = T##_SERIALIZATION_BUFFER_SIZE_BYTES_;                                                        \
+            if (is_serbuf) { cap = (size_t) p_u64(&p); }                                                              \
+            if (p.err) { free(obj); return 0; }                                                                       \
+            const uint8_t fill = is_serbuf ? 0x55 : 0xFF;                                                             \
+            uint8_t* buf = guarded_alloc(cap, fill);                                                                  \
+            size_t size = cap;                                                                                        \
+            const int rc = T##_serialize_(obj, buf, &size);                                                           \
+            if (!guard_ok(buf, cap)) { o_str("err:overrun"); }                                                        \
+            else if (rc < 0) { o_str(err_name(rc)); }                                                                 \
+            else if (size > cap) { o_str("err:size-above-capacity"); }                                                \
+            else if (!tail_untouched(buf, size, cap, fill)) { o_str("err:wrote-beyond-reported-size"); }              \
+            else                                                                                                      \
+            {                                                                                                         \
+                o_str("ok");                                                                                          \
+                o_hex(buf, size);                                                                                     \
+                if (is_rt)                                                                                            \
+                {                                                                                                     \
+                    T* o2 = (T*) malloc(sizeof(T));                                                                   \
+                    memset(o2, 0xA5, sizeof(T));                                                                      \
+                    uint8_t* in = (uint8_t*) malloc(size ? size : 1);                                                 \
+                    memcpy(in, buf, size);                                                                            \
+                    size_t sz = size;                                                                                 \
+                    const int rc2 = T##_deserialize_(o2, in, &sz);                                                    \
+                    if (rc2 < 0) { o_sep(); o_str(err_name(rc2)); }                                                   \
+                    else                                                                                              \
+                    {                                                                                                 \
+                        dump_##T(o2);                                                                                 \
+                        o_u64(sz);                                                                                    \
+                        uint8_t* b2 = guarded_alloc(T##_SERIALIZATION_BUFFER_SIZE_BYTES_, 0x00);                      \
+                        size_t s2 = T##_SERIALIZATION_BUFFER_SIZE_BYTES_;                                             \
+                        const int rc3 = T##_serialize_(o2, b2, &s2);                                                  \
+                        if (rc3 < 0) { o_sep(); o_str(err_name(rc3)); } else { o_hex(b2, s2); }                       \
+                        guarded_free(b2);                                                                             \
+                    }                                                                                                 \
+                    free(in);                                                                                         \
+                    free(o2);                                                                                         \
+                }                                                                                                     \
+            }                                                                                                         \
+            guarded_free(buf);                                                                                        \
+            free(obj);                                                                                                \
+            return 1;                                                                                                 \
+        }                                                                                                             \
+        if (!strcmp(op, "de"))                                                                                        \
+        {                                                                                                             \
+            uint8_t* in = NULL;                                                                                       \
+            const size_t n = hex_decode(rest, &in);                                                                   \
+            T* o2 = (T*) malloc(sizeof(T));                                                                           \
+            memset(o2, 0xA5, sizeof(T));                                                                              \
+            size_t sz = n;                                                                                            \
+            const int rc = T##_deserialize_(o2, in, &sz);                                                             \
+            if (rc < 0) { o_str(err_name(rc)); }                                                                      \
+            else { o_str("ok"); dump_##T(o2); o_u64(sz); }                                                            \
+            free(o2);                                                                                                 \
+            free(in);                                                                                                 \
+            return 1;                                                                                                 \
+        }                                                                                                             \
+        if (!strcmp(op, "probe")) { probe_##IDX(); return 1; }                                                        \
+        return 0;                                                                                                     \
+    }
+'''
+
+_C_PROBE_RT = r'''
+#define TYPE_CLASS(X) _Generic((X), _Bool: 'b', char: 'c', signed char: 's', short: 's', int: 's', long: 's', long long: 's', \
+    unsigned char: 'u', unsigned short: 'u', unsigned int: 'u', unsigned long: 'u', unsigned long long: 'u', float: 'f', double: 'd', \
+    long double: 'L', default: '?')
+static void probe_kv(const char* k) { o_sep(); o_str(k); o_str("="); }
+#define PROBE_UINT(K, X) do { probe_kv(K); char b_[48]; snprintf(b_, sizeof b_, "%llu", (unsigned long long) (X)); o_str(b_); } while (0)
+#define PROBE_STR(K, X) do { probe_kv(K); o_str(X); } while (0)
+/* constant: <class>:<sizeof>:<value as signed/unsigned 64 or float bits> */
+#define PROBE_CONST(K, X) do { probe_kv(K); char b_[96]; const char c_ = TYPE_CLASS(X); \
+    if (c_ == 'f') { float f_ = (float) (X); uint32_t u_; memcpy(&u_, &f_, 4); snprintf(b_, sizeof b_, "f:%zu:%08x", sizeof(X), (unsigned) u_); } \
+    else if (c_ == 'd') { double f_ = (double) (X); uint64_t u_; memcpy(&u_, &f_, 8); snprintf(b_, sizeof b_, "d:%zu:%016llx", sizeof(X), (unsigned long long) u_); } \
+    else if (c_ == 'u' || c_ == 'b') { snprintf(b_, sizeof b_, "%c:%zu:%llu", c_, sizeof(X), (unsigned long long) (X)); } \
+    else if (c_ == 's' || c_ == 'c') { snprintf(b_, sizeof b_, "%c:%zu:%lld", c_, sizeof(X), (long long) (X)); } \
+    else { snprintf(b_, sizeof b_, "?:%zu:%lld:neg=%d", sizeof(X), (long long) (X), (int) ((X) < 0)); } \
+    o_str(b_); } while (0)
+'''
+
+
+def c_probe_lines(gt, idx):
+    n = c_name(gt.model)
+    m = gt.inner
+    out = [f"static void probe_{idx}(void)", "{", '    o_str("ok");',
+           f'    PROBE_UINT("extent_bytes", {n}_EXTENT_BYTES_);',
+           f'    PROBE_UINT("buffer_bytes", {n}_SERIALIZATION_BUFFER_SIZE_BYTES_);',
+           f'    PROBE_STR("full_name", {n}_FULL_NAME_);',
+           f'    PROBE_STR("full_name_and_version", {n}_FULL_NAME_AND_VERSION_);']
+    # the port-ID macros belong to the message or to the parent service
+    holder = n
+    if m.has_parent_service:
+        comps = m.full_name.split(".")[:-1]
+        holder = "_".join(comps) + f"_{m.version.major}_{m.version.minor}"
+    out += [f'    PROBE_UINT("has_fixed_port_id", {holder}_HAS_FIXED_PORT_ID_);',
+            f"#if defined({holder}_FIXED_PORT_ID_)", f'    PROBE_UINT("fixed_port_id", {holder}_FIXED_PORT_ID_);', "#endif"]
+    if isinstance(m, pydsdl.UnionType):
+        out.append(f'    PROBE_UINT("union_option_count", {n}_UNION_OPTION_COUNT_);')
+    for f in m.fields:
+        if isinstance(f.data_type, pydsdl.ArrayType):
+            out.append(f'    PROBE_UINT("cap.{f.name}", {n}_{f.name}_ARRAY_CAPACITY_);')
+            out.append(f'    PROBE_UINT("var.{f.name}", {n}_{f.name}_ARRAY_IS_VARIABLE_LENGTH_);')
+    for c in m.constants:
+        out.append(f'    PROBE_CONST("const.{c.name}", {n}_{c.name});')
+    out.append(f'    PROBE_UINT("sizeof", sizeof({n}));')
+    out += ["}", ""]
+    return out
+
+
+def c_shim_source(ns):
+    g = _CGen()
+    out = ["/* generated by harness/codec_targets.py from the PyDSDL model */"]
+    seen = set()
+    for gt in ns.types:
+        h = _header_path(gt.model, ".h")
+        if h not in seen:
+            seen.add(h)
+            out.append(f'#include "{h}"')
+    out.append('#include "codec_shim_rt.h"')
+    out.append(_C_PROBE_RT)
+    for m in _composites_in_order(ns):
+        out += g.composite(m)
+    for gt in ns.types:
+        out += c_probe_lines(gt, gt.index)
+    out.append(_C_HANDLER)
+    for gt in ns.types:
+        out.append(f"DEFINE_HANDLER({gt.index}, {c_name(gt.model)})")
+    out += ["", "static int dispatch(int idx, const char* op, const char* rest)", "{", "    switch (idx) {"]
+    for gt in ns.types:
+        out.append(f"    case {gt.index}: return handle_{gt.index}(op, rest);")
+    out += ["    default: return 0;", "    }", "}", ""]
+    return "\n".join(out)
+
+
+def _compile(cmd, timeout=1500):
+    try:
+        p = subprocess.run(cmd, capture_output=True, text=True, timeout=timeout)
+        return p.returncode == 0, (p.stdout + p.stderr)
+    except subprocess.TimeoutExpired:
+        return False, "compiler timed out"
+
+
+class CTarget(BatchProcessTarget):
+    lang = "c"
+
+    def __init__(self, ns, outdir, endianness="any", asserts=False, cc="gcc", extra_nnvg=(), cflags=("-O1",), run=True, tag=None):
+        name = tag or f"c/{endianness}{'+asserts' if asserts else ''}{'' if cc == 'gcc' else '/' + cc}"
+        super().__init__(name, {"lang": "c", "target_endianness": endianness, "enable_serialization_asserts": asserts, "cc": cc,
+                                "nnvg": list(extra_nnvg), "cflags": list(cflags)})
+        self.ns, self.outdir, self.endianness, self.asserts, self.cc = ns, pathlib.Path(outdir), endianness, asserts, cc
+        self.extra_nnvg, self.cflags, self.run = list(extra_nnvg), list(cflags), run
+        self.warnings = ""
+
+    def generate(self):
+        self.outdir.mkdir(parents=True, exist_ok=True)
+        args = ["--target-endianness", self.endianness] + (["--enable-serialization-asserts"] if self.asserts else []) + self.extra_nnvg
+        ok, log = run_nnvg(self.ns, "c", self.outdir / "gen", args)
+        self.build_log = log
+        if ok:
+            (self.outdir / "shim.c").write_text(c_shim_source(self.ns))
+        return ok
+
+    def compile(self):
+        self.exe = self.outdir / "shim"
+        cmd = [self.cc, "-std=c11", "-D_POSIX_C_SOURCE=200809L", "-Wall", "-Wno-unused-function", "-Wno-unused-but-set-variable"] + self.cflags
+        if self.asserts:
+            cmd += ["-DNUNAVUT_ASSERT(x)=assert(x)"]
+        cmd += ["-I", str(self.outdir / "gen"), "-I", str(HERE / "c"), str(self.outdir / "shim.c"), "-o", str(self.exe), "-lm"]
+        ok, log = _compile(cmd)
+        self.build_log += log[-6000:]
+        self.warnings = log
+        self.ok = ok
+        return ok
+
+    def build(self):
+        return self.generate() and self.compile()
+
+    def probe(self):
+        return self.ask([f"probe {gt.index}" for gt in self.ns.types])
+
+
+# ------------------------------------------------------------------------------------------------------------
+# C++ shim (from the PyDSDL model)
+# ------------------------------------------------------------------------------------------------------------
+
+def cpp_name(model):
+    m = _inner(model)
+    comps = m.full_name.split(".")
+    return "::".join(comps[:-1] + [f"{comps[-1]}_{m.version.major}_{m.version.minor}"])
+
+
+class _CppGen(_CGen):
+    def parse_value(self, t, lv):
+        if isinstance(t, pydsdl.PrimitiveType):
+            return [f"parse_prim(p, {lv});"]
+        if isinstance(t, pydsdl.CompositeType):
+            return [f"parse(p, {lv});"]
+        raise ValueError(t)
+
+    def dump_value(self, t, rv):
+        if isinstance(t, pydsdl.PrimitiveType):
+            return [f"dump_prim({rv});"]
+        if isinstance(t, pydsdl.CompositeType):
+            return [f"dump({rv});"]
+        raise ValueError(t)
+
+    def parse_into(self, t, lv):
+        """Statements parsing a value of field type t into the C++ lvalue lv."""
+        if isinstance(t, pydsdl.VoidType):
+            return ["p_void(p);"]
+        if isinstance(t, pydsdl.FixedLengthArrayType):
+            i = self.fresh("i")
+            out = ["p_expect(p, '[');", f"for (std::size_t {i} = 0; {i} < {t.capacity}U; ++{i}) {{"]
+            if isinstance(t.element_type, pydsdl.BooleanType):
+                out += [f"    {lv}[{i}] = p_u64(p) != 0;"]
+            else:
+                out += ["    " + s for s in self.parse_value(t.element_type, f"{lv}[{i}]")]
+            out += ["}", "p_expect(p, ']');"]
+            return out
+        if isinstance(t, pydsdl.VariableLengthArrayType):
+            e = self.fresh("e")
+            out = ["p_expect(p, '[');", f"{lv}.clear();", "while (p_peek(p) != ']' && !p->err) {",
+                   f"    typename std::remove_reference<decltype({lv})>::type::value_type {e}{{}};"]
+            out += ["    " + s for s in self.parse_value(t.element_type, e)]
+            out += [f"    {lv}.push_back({e});", "}", "p_expect(p, ']');"]
+            return out
+        return self.parse_value(t, lv)
+
+    def dump_from(self, t, rv):
+        if isinstance(t, pydsdl.VoidType):
+            return ["o_void();"]
+        if isinstance(t, pydsdl.ArrayType):
+            i = self.fresh("i")
+            out = ["o_open('[');", f"for (std::size_t {i} = 0; {i} < {rv}.size(); ++{i}) {{"]
+            if isinstance(t.element_type, pydsdl.BooleanType):
+                out += [f"    o_u64({rv}[{i}] ? 1U : 0U);"]
+            else:
+                out += ["    " + s for s in self.dump_value(t.element_type, f"{rv}[{i}]")]
+            out += ["}", "o_close(']');"]
+            return out
+        return self.dump_value(t, rv)
+
+    def composite(self, m):
+        n = "::" + cpp_name(m)
+        ps = [f"static void parse(P* p, {n}& o)", "{", "    (void) o;"]
+        ds = [f"static void dump(const {n}& o)", "{", "    (void) o;"]
+        if isinstance(m, pydsdl.UnionType):
+            ps += ["    p_expect(p, '<');", "    const std::uint64_t k = p_u64(p);", "    switch (k) {"]
+            ds += ["    o_open('<');"]
+            for k, f in enumerate(m.fields):
+                ps += [f"    case {k}: {{", f"        auto& r = o.set_{f.name}();"] + ["        " + s for s in self.parse_into(f.data_type, "r")] + ["        break; }"]
+                ds += [f"    if (const auto* q = o.get_{f.name}_if()) {{", f"        o_u64({k}U);"] + ["        " + s for s in self.dump_from(f.data_type, "(*q)")] + ["    }"]
+            ps += ["    default: throw NotApplicable{};", "    }", "    p_expect(p, '>');"]
+            ds += ["    o_close('>');"]
+        else:
+            ps += ["    p_expect(p, '{');"]
+            ds += ["    o_open('{');"]
+            for f in m.fields:
+                if isinstance(f, pydsdl.PaddingField):
+                    ps += ["    p_void(p);"]
+                    ds += ["    o_void();"]
+                else:
+                    ps += ["    " + s for s in self.parse_into(f.data_type, f"o.{f.name}")]
+                    ds += ["    " + s for s in self.dump_from(f.data_type, f"o.{f.name}")]
+            ps += ["    p_expect(p, '}');"]
+            ds += ["    o_close('}');"]
+        ps += ["}"]
+        ds += ["}"]
+        return ps + [""] + ds + [""]
+
+
+def cpp_probe_lines(gt, idx):
+    n = "::" + cpp_name(gt.model)
+    m = gt.inner
+    out = [f"static void probe_{idx}()", "{", '    o_str("ok");',
+           f'    probe_uint("extent_bytes", {n}::_traits_::ExtentBytes);',
+           f'    probe_uint("buffer_bytes", {n}::_traits_::SerializationBufferSizeBytes);',
+           f'    probe_uint("has_fixed_port_id", {n}::_traits_::HasFixedPortID);',
+           f'    probe_uint("is_service", {n}::_traits_::IsServiceType);',
+           ]
+    if gt.fixed_port_id is not None:
+        out.append(f'    probe_uint("fixed_port_id", {n}::_traits_::FixedPortId);')
+    if isinstance(m, pydsdl.UnionType):
+        out.append(f'    probe_uint("union_option_count", {n}::VariantType::MAX_INDEX);')
+    for c in m.constants:
+        out.append(f'    {{ const auto v = {n}::{c.name}; probe_const("const.{c.name}", v); }}')
+    out += ["}", ""]
+    return out
+
+
+def cpp_shim_sources(ns, parts=1):
+    """-> list of (file name, text).  The handlers are spread over `parts` translation units to compile in parallel."""
+    order = _composites_in_order(ns)
+    includes = []
+    seen = set()
+    for gt in ns.types:
+        h = _header_path(gt.model, ".hpp")
+        if h not in seen:
+            seen.add(h)
+            includes.append(f'#include "{h}"')
+    parts = max(1, min(parts, len(ns.types) or 1))
+    files = []
+    for part in range(parts):
+        mine = [gt for gt in ns.types if gt.index % parts == part]
+        g = _CppGen()
+        out = ["// generated by harness/codec_targets.py from the PyDSDL model"] + includes + ['#include "codec_shim_rt.hpp"', "namespace {"]
+        # only the composites reachable from this part's types
+        need = set()
+
+        def visit(t):
+            t = _inner(t)
+            if isinstance(t, pydsdl.ArrayType):
+                visit(t.element_type)
+            elif isinstance(t, pydsdl.CompositeType) and c_name(t) not in need:
+                need.add(c_name(t))
+                for f in t.fields:
+                    visit(f.data_type)
+        for gt in mine:
+            visit(gt.model)
+        for m in order:
+            if c_name(m) in need:
+                out += g.composite(m)
+        for gt in mine:
+            out += cpp_probe_lines(gt, gt.index)
+        out += ['#include "codec_shim_handle.hpp"', "}  // namespace", ""]
+        out += [f"int dispatch_part{part}(int idx, const char* op, const char* rest)", "{", "    switch (idx) {"]
+        for gt in mine:
+            out.append(f"    case {gt.index}: return handle<::{cpp_name(gt.model)}>(op, rest, &probe_{gt.index});")
+        out += ["    default: return 0;", "    }", "}", ""]
+        files.append((f"shim_part{part}.cpp", "\n".join(out)))
+    main = ['#define CODEC_SHIM_MAIN', '#include "codec_shim_rt.h"']
+    main += [f"int dispatch_part{p}(int idx, const char* op, const char* rest);" for p in range(parts)]
+    main += ["static int dispatch(int idx, const char* op, const char* rest)", "{", f"    switch (idx % {parts}) {{"]
+    main += [f"    case {p}: return dispatch_part{p}(idx, op, rest);" for p in range(parts)]
+    main += ["    default: return 0;", "    }", "}", ""]
+    files.append(("shim_main.cpp", "\n".join(main)))
+    return files
+
+
+class CppTarget(BatchProcessTarget):
+    lang = "cpp"
+
+    def __init__(self, ns, outdir, std="c++14", asserts=False, cxx="g++", extra_nnvg=(), cxxflags=("-O1",), parts=4, tag=None):
+        name = tag or f"cpp/{std}{'+asserts' if asserts else ''}{'' if cxx == 'g++' else '/' + cxx}"
+        super().__init__(name, {"lang": "cpp", "std": std, "enable_serialization_asserts": asserts, "cxx": cxx,
+                                "nnvg": list(extra_nnvg), "cxxflags": list(cxxflags)})
+        self.ns, self.outdir, self.std, self.asserts, self.cxx = ns, pathlib.Path(outdir), std, asserts, cxx
+        self.extra_nnvg, self.cxxflags, self.parts = list(extra_nnvg), list(cxxflags), parts
+        self.jobs = []
+
+    def generate(self):
+        self.outdir.mkdir(parents=True, exist_ok=True)
+        args = ["--language-standard", self.std] + (["--enable-serialization-asserts"] if self.asserts else []) + self.extra_nnvg
+        ok, log = run_nnvg(self.ns, "cpp", self.outdir / "gen", args)
+        self.build_log = log
+        if not ok:
+            return False
+        self.jobs = []
+        gxx_std = {"c++17-pmr": "c++17", "cetl++14-17": "c++14"}.get(self.std, self.std)
+        for fn, text in cpp_shim_sources(self.ns, self.parts):
+            (self.outdir / fn).write_text(text)
+            cmd = [self.cxx, f"-std={gxx_std}", "-Wall", "-Wno-unused-function", "-Wno-unused-but-set-variable"] + self.cxxflags
+            if self.asserts:
+                cmd += ["-DNUNAVUT_ASSERT(x)=assert(x)", "-include", "cassert"]
+            cmd += ["-I", str(self.outdir / "gen"), "-I", str(HERE / "cpp"), "-I", str(HERE / "c"), "-c", str(self.outdir / fn),
+                    "-o", str(self.outdir / (fn + ".o"))]
+            self.jobs.append(cmd)
+        return True
+
+    def link(self):
+        self.exe = self.outdir / "shim"
+        objs = [str(self.outdir / (fn + ".o")) for fn, _ in cpp_shim_sources(self.ns, self.parts)]
+        ok, log = _compile([self.cxx] + [f for f in self.cxxflags if f.startswith("-fsanitize")] + objs + ["-o", str(self.exe)])
+        self.build_log += log[-3000:]
+        self.ok = ok
+        return ok
+
+    def build(self):
+        if not self.generate():
+            return False
+        for cmd in self.jobs:
+            ok, log = _compile(cmd)
+            self.build_log += log[-3000:]
+            if not ok:
+                return False
+        return self.link()
+
+    def probe(self):
+        return self.ask([f"probe {gt.index}" for gt in self.ns.types])
